@@ -54,3 +54,83 @@ Print Assumptions C09_bad_varint_fails.
 Print Assumptions C09_short_prefix_waits.
 Print Assumptions C09_decode_buffer_bound.
 Print Assumptions C09_buffer_bound.
+
+(* ---- outbound (package E: ServerHandler.v = server.rs ServerConnectionHandler; ServerHandler_wire.v closes it down
+   to the bytes).  For ANY history of queue_messages / set_stream / poll with any stream behaviour:
+   the payloads of the started messages followed by what is still pending are exactly the queued blocks in order;
+   every started message fits the limit if every queued block fits on its own (an oversize block travels alone);
+   with the real size estimate and the real encoder the announced frame length is within the limit and the
+   receiving Codec::decode returns exactly the started payload.  Tie: Tie_server (shape of blocks_fitting_in_message). *)
+From BS Require Import Types FramedWrite ServerHandler Handler_proofs ServerHandler_proofs ServerHandler_wire Tie_server.
+Open Scope N_scope.
+
+Theorem C09_outbound_split :
+  forall (encode : message -> bytes) (block_size : blk -> N) (ops : list shop),
+  let st := server_handler_final encode block_size ops in
+  let outs := server_handler_outs encode block_size ops in
+  ((forall b : blk, In b (queued_of ops) -> block_size b <= MAX_MESSAGE_SIZE) ->
+   Forall (fun p : N * list blk => total block_size (snd p) <= MAX_MESSAGE_SIZE) (sh_started st)) /\
+  concat (map snd (sh_started st)) ++ pending_list st = queued_of ops /\
+  (forall id : N, prefix (swrote_on id outs) (sbytes encode id (sh_started st))) /\
+  (no_drop outs ->
+   forall (id : N) (buf : bytes),
+   sh_sink st = SvReady id buf ->
+   swrote_on id outs ++ buf =
+   concat (map (fun p : N * list blk => encode (payload_message (snd p))) (sh_started st))).
+Proof. exact (@ServerHandler_proofs.C09_outbound_split). Qed.
+
+Theorem C09_outbound_oversize_alone :
+  forall (encode : message -> bytes) (block_size : blk -> N) (ops : list shop) (p : N * list blk) (b : blk),
+  In p (sh_started (server_handler_final encode block_size ops)) ->
+  In b (snd p) -> MAX_MESSAGE_SIZE < block_size b -> snd p = [b].
+Proof. exact (@ServerHandler_proofs.C09_outbound_oversize_alone). Qed.
+
+Theorem C09_outbound_frames_within_limit :
+  forall ops : list shop,
+  (forall b : blk, In b (queued_of ops) -> wire_block_size b <= MAX_MESSAGE_SIZE) ->
+  Forall (fun p : N * list blk => Frame_proofs.size_ok ProtoCodec.write_message (payload_message (snd p)))
+    (sh_started (server_handler_final Codec.codec_encode wire_block_size ops)).
+Proof. exact (@ServerHandler_wire.C09_outbound_frames_within_limit). Qed.
+
+Theorem C09_outbound_frames_accepted :
+  forall (ops : list shop) (chk : bool),
+  Forall wf_blk (queued_of ops) ->
+  (forall b : blk, In b (queued_of ops) -> wire_block_size b <= MAX_MESSAGE_SIZE) ->
+  Forall
+    (fun p : N * list blk =>
+     forall rest : list N,
+     Codec.codec_decode chk (Codec.codec_encode (payload_message (snd p)) ++ rest) =
+     Frame.DItem (payload_message (snd p)) rest)
+    (sh_started (server_handler_final Codec.codec_encode wire_block_size ops)).
+Proof. exact (@ServerHandler_wire.C09_outbound_frames_accepted). Qed.
+
+Theorem server_poll_fuel_sufficient :
+  forall (encode : message -> bytes) (block_size : blk -> N) (st : shstate) (s : list io),
+  sh_exhausted st = false -> sh_exhausted (fst (sh_do_poll encode block_size st s)) = false.
+Proof. exact (@ServerHandler_proofs.server_poll_fuel_sufficient). Qed.
+
+
+(* non-vacuity: two blocks queued, a stream granted, one poll that flushes: one frame with both blocks started,
+   all hypotheses of the theorems above hold *)
+Definition ex_blk1 : blk := ([1; 85; 18; 32], [1; 2; 3]).
+Definition ex_blk2 : blk := ([1; 85; 18; 32], [4; 5]).
+Definition ex_out_ops : list shop := [SHQueue [ex_blk1; ex_blk2]; SHPoll []; SHSetStream; SHPoll [FlushOk; WAccept 100; FlushOk]].
+Example ex_outbound :
+  Forall wf_blk (queued_of ex_out_ops)
+  /\ (forall b, In b (queued_of ex_out_ops) -> wire_block_size b <= MAX_MESSAGE_SIZE)
+  /\ map snd (sh_started (server_handler_final Codec.codec_encode wire_block_size ex_out_ops)) = [[ex_blk1; ex_blk2]]
+  /\ server_handler_run Codec.codec_encode wire_block_size ex_out_ops
+     = [[]; [SHOpenStream]; []; [SHWrote 0 (Codec.codec_encode (payload_message [ex_blk1; ex_blk2]))]].
+Proof.
+  split; [|split; [|split]].
+  - repeat constructor; vm_compute; reflexivity.
+  - intros b [<-|[<-|[]]]; vm_compute; discriminate.
+  - vm_compute. reflexivity.
+  - vm_compute. reflexivity.
+Qed.
+
+Print Assumptions C09_outbound_split.
+Print Assumptions C09_outbound_oversize_alone.
+Print Assumptions C09_outbound_frames_within_limit.
+Print Assumptions C09_outbound_frames_accepted.
+Print Assumptions server_poll_fuel_sufficient.
